@@ -491,6 +491,8 @@ def harness(E, cfg):
             pl.fit(X, Y)
             pl.predict(X)
             pl.transform(X, Y)
+            y1 = snap.arr("Y_vector", np.array(E.real("y1", (3,))))  # 1-D targets: a reshape of them is a view
+            pl.transform(X, y1)
         elif ep == "tucker_regressor":
             from tensorly.regression.tucker_regression import TuckerRegressor
 
